@@ -103,6 +103,8 @@ func rulesC19(c *Ctx) {
 	ruleGetEntriesLookups(c)
 	ruleStatusCompare(c)
 	ruleStatusOptions(c)
+	ruleCompareStructural(c)
+	ruleConnectLifecycle(c) // a finished test's session really ends (Stop → Close → disconnect on every path): a session left open constrains the parameters of every later test on a long-lived server (shared with C14)
 }
 
 func ruleRegistryFIB(c *Ctx, entries []regEntry) {
